@@ -454,10 +454,11 @@ def evalLife (p : Pending) (glob : Oracle) (obsToks : List String) : String :=
   let pm := mergeW (mlog.filter keepR)
   let pi := mergeW (ilog.filter keepR)
   -- for handler kinds without a model (the slot handler) only the predicate is evaluated
-  let eq := kind == "slot" || pm == pi
-  let hm := kind == "slot" || C10.holds mlog
+  let noModel := kind == "slot" || kind == "proxy"
+  let eq := noModel || pm == pi
+  let hm := noModel || C10.holds mlog
   let hi := C10.holds ilog
-  let miss := (kind != "slot" && containsMiss mlog) || !badTok.isEmpty
+  let miss := (!noModel && containsMiss mlog) || !badTok.isEmpty
   let b (x : Bool) := if x then "1" else "0"
   let head := s!"RES {p.prop} {p.id} eq={b eq} hm={b hm} hi={b hi} miss={b miss} crash={b (obsToks.contains "crash")}"
   if eq && hi && hm && !miss then head else head ++ " | " ++ showLog pm ++ " | " ++ showLog pi ++ " | " ++
